@@ -159,6 +159,9 @@ fn shrink_c(c: &CgrFileCase) -> Vec<CgrFileCase> {
 
 /// `kmer` = false: C11 (whole sequence), true: C12 (k-mer CGR)
 pub fn run_cgr_files(kmer: bool, tier: &str, rng: &mut Rng, model: &Model, rep: &mut Report, corpus_lines: &[String], work: &str) {
+    if sharded() {
+        return;
+    }
     rep.rules.push("file level: record lists (empty records, trailing empty records, 0..60 records) through the batched writer with thread counts 1..16 and batch limits from 1 byte to 4 GiB, FASTA/FASTQ; the output text is compared with the rows of the Lean model (bit patterns printed with Rust's own float formatting); non-trivial = more records than threads".into());
     let mut counter = 0u64;
     let mut run_one = |c: &CgrFileCase, section: &str, rep: &mut Report| {
